@@ -301,6 +301,49 @@ def r6_label_cache_keys(ctx):
         ctx.ob("bionumpy/encodings/kmer_encodings.py", "no dict-based memo exists in the sliding-window modules (nothing can go stale)", True, "")
 
 
+def r7_exact_match_and_short_input(ctx):
+    """(a) match_string decides a window by comparing every position with the pattern; a positional hash `codes . base**arange(w)` of a pattern of
+    unbounded length wraps in int64 (4**32 == 0 mod 2**64): windows that differ only beyond the wrap compare equal; (b) a text of exactly
+    window_size letters has one window: a guard for 'too short for one window' must be strict (< window_size)."""
+    ix = ctx.index
+    f = ix.func("bionumpy.sequence.string_matcher", "StringMatcher.__call__")
+    sq = f.params[1]
+    rets = [r for r in body_walk(f.node) if isinstance(r, ast.Return)]
+    ctx.floor("returns of StringMatcher.__call__", len(rets), 1)
+    want = sym.canon(sym.parse_expr(f"np.all({sq} == self._matching_sequence_array, axis=-1)"))
+    for r in rets:
+        c = sym.canon(r.value, local_env(f.node))
+        if c == want:
+            ok = True
+        elif any(isinstance(x, ast.BinOp) and isinstance(x.op, ast.Pow) for x in ast.walk(inline_locals(r.value, local_env(f.node)))) and \
+                any(isinstance(x, ast.Call) and isinstance(x.func, ast.Attribute) and x.func.attr in ("dot", "sum") for x in ast.walk(r.value)):
+            ok = False
+        else:
+            raise Unrecognised(f"{f.where}: a window is matched in a form the checker cannot compare: {u(r.value)}")
+        ctx.ob(f.where, "a window matches when ALL its letters equal the pattern's (exact comparison per position; no fixed-width hash of a pattern of unbounded length)", ok, u(r.value)[:140],
+               key="C13-R7|exact-match")
+    rw = ix.func("bionumpy.sequence.rollable", "RollableFunction.rolling_window")
+    ws = rw.params[2]
+    n = 0
+    for t in [x for x in body_walk(rw.node) if isinstance(x, ast.If)]:
+        for c in [x for x in ast.walk(t.test) if isinstance(x, ast.Compare) and len(x.ops) == 1]:
+            sides = (sym.canon(c.left), sym.canon(c.comparators[0]))
+            if ws not in sides or not any(s_.startswith("len(") or s_.endswith(".size") for s_ in sides):
+                continue
+            if not any(isinstance(x, ast.Return) for b in t.body for x in ast.walk(b)):
+                continue
+            n += 1
+            op = type(c.ops[0])
+            len_left = sides[0] != ws
+            strict = (op is ast.Lt and len_left) or (op is ast.Gt and not len_left)
+            ctx.ob(rw.where, "the early exit for input too short to hold one window is taken only when length < window_size (length == window_size holds exactly one window)", strict,
+                   u(c), key="C13-R7|short-input-guard")
+    ctx.count("short-input guards in rolling_window", n)
+    valid = [r for r in body_walk(rw.node) if isinstance(r, ast.Return) and r.value is not None and "or None" in u(r.value)]
+    ctx.ob(rw.where, "valid mode returns every row without its last window_size-1 positions (one window for a row of exactly window_size letters)",
+           any(sym.canon(r.value) == sym.canon(sym.parse_expr(f"out[..., :(-{ws} + 1) or None]")) for r in valid), "; ".join(u(r.value) for r in valid), key="C13-R7|valid-trim")
+
+
 RULES = [
     ("C13-R1", r1_trailing_trim),
     ("C13-R2", r2_hash_weights),
@@ -308,4 +351,5 @@ RULES = [
     ("C13-R4", r4_shape_provenance),
     ("C13-R5", r5_coverage_and_accumulation),
     ("C13-R6", r6_label_cache_keys),
+    ("C13-R7", r7_exact_match_and_short_input),
 ]
